@@ -722,12 +722,14 @@ fn instance_type_body(r: &mut Rng, depth: usize, ind: &str) -> String {
                 let ft = d.func_type(r);
                 let n = d.name("f");
                 d.line(&format!("(export \"{n}\" {ft})"));
+                d.types += 1; // the inline function type
             }
             _ => {
                 if depth > 0 {
                     let inner = instance_type_body(r, depth - 1, &format!("{ind}  "));
                     let n = d.name("i");
                     d.line(&format!("(export \"{n}\" (instance\n{inner}{ind}))"));
+                    d.types += 1; // the inline instance type
                 }
             }
         }
@@ -747,11 +749,13 @@ fn component_type_body(r: &mut Rng, depth: usize, ind: &str) -> String {
                 let ft = d.func_type(r);
                 let n = d.name("f");
                 d.line(&format!("(import \"{n}\" {ft})"));
+                d.types += 1;
             }
             3 => {
                 let inner = instance_type_body(r, depth.saturating_sub(1), &format!("{ind}  "));
                 let n = d.name("i");
                 d.line(&format!("(import \"{n}\" (instance\n{inner}{ind}))"));
+                d.types += 1;
             }
             _ => {
                 let n = d.name("v");
@@ -767,11 +771,13 @@ fn component_type_body(r: &mut Rng, depth: usize, ind: &str) -> String {
                 let ft = d.func_type(r);
                 let n = d.name("xf");
                 d.line(&format!("(export \"{n}\" {ft})"));
+                d.types += 1;
             }
             1 => {
                 let inner = instance_type_body(r, depth.saturating_sub(1), &format!("{ind}  "));
                 let n = d.name("xi");
                 d.line(&format!("(export \"{n}\" (instance\n{inner}{ind}))"));
+                d.types += 1;
             }
             _ => d.resource(r),
         }
@@ -816,6 +822,7 @@ pub fn gen_shaped_wat(r: &mut Rng) -> (String, Vec<&'static str>) {
                 let ft = d.func_type(r);
                 let n = d.name("f");
                 d.line(&format!("(import \"{n}\" {ft})"));
+                d.types += 1;
                 funcs.push(n);
                 if r.chance(1, 3) {
                     xn += 1;
@@ -830,6 +837,7 @@ pub fn gen_shaped_wat(r: &mut Rng) -> (String, Vec<&'static str>) {
                 let n = if r.chance(1, 2) { format!("a:b/i{}", d.names + 1) } else { d.name("i") };
                 d.names += 1;
                 d.line(&format!("(import \"{n}\" (instance\n{inner}  ))"));
+                d.types += 1;
                 if r.chance(1, 3) {
                     xn += 1;
                     exports.push_str(&format!("  (export \"xi{xn}\" (instance {n_instances}))\n"));
@@ -842,6 +850,7 @@ pub fn gen_shaped_wat(r: &mut Rng) -> (String, Vec<&'static str>) {
                 let inner = component_type_body(r, 2, "    ");
                 let n = d.name("c");
                 d.line(&format!("(import \"{n}\" (component\n{inner}  ))"));
+                d.types += 1;
                 if r.chance(1, 3) {
                     xn += 1;
                     exports.push_str(&format!("  (export \"xc{xn}\" (component {n_components}))\n"));
@@ -865,7 +874,12 @@ pub fn gen_shaped_wat(r: &mut Rng) -> (String, Vec<&'static str>) {
             }
             7 => {
                 feats.push("wat:value-import");
-                let v = d.sig_val(r, 2, false);
+                let v = match r.below(4) {
+                    0 => format!("(list {})", PRIMS[r.below(PRIMS.len())]),
+                    1 => format!("(option {})", PRIMS[r.below(PRIMS.len())]),
+                    2 => format!("(tuple {} {})", PRIMS[r.below(PRIMS.len())], PRIMS[r.below(PRIMS.len())]),
+                    _ => PRIMS[r.below(PRIMS.len())].to_string(),
+                };
                 let n = d.name("v");
                 d.line(&format!("(import \"{n}\" (value {v}))"));
                 // a value must be consumed exactly once: export it
